@@ -10,6 +10,7 @@ var commands = map[string]func([]string){}
 func init() {
 	commands["storage-run"] = cmdStorageRun
 	commands["storage-random"] = cmdStorageRandom
+	commands["array-run"] = cmdArrayRun
 }
 
 func main() {
